@@ -43,6 +43,7 @@ class Stats:
         self.branches = 0
         self.paths = 0
         self.unknown = 0
+        self.cache_hits = 0
 
     def add(self, o: "Stats") -> None:
         self.queries += o.queries
@@ -50,9 +51,11 @@ class Stats:
         self.branches += o.branches
         self.paths += o.paths
         self.unknown += o.unknown
+        self.cache_hits += o.cache_hits
 
 
 _FV_CACHE: dict = {}
+_QCACHE: dict = {}
 
 
 def free_syms(e) -> frozenset:
@@ -180,11 +183,21 @@ class Ctx:
             for a in assumptions:
                 syms |= free_syms(a)
             rel = self._relevant(syms)
+            # process-wide result cache: the same sliced query recurs on sibling paths
+            key = (frozenset(x.get_id() for x in rel), tuple(a.get_id() for a in assumptions))
+            hit = _QCACHE.get(key)
+            if hit is not None:
+                self.stats.cache_hits += 1
+                return hit[0]
             s_ = z3.Solver()
             s_.set("timeout", QUERY_TIMEOUT_MS)
             if rel:
                 s_.add(*rel)
             r = s_.check(*assumptions)
+            if str(r) != "unknown":
+                if len(_QCACHE) > 300000:
+                    _QCACHE.clear()
+                _QCACHE[key] = (str(r), rel, assumptions)  # keeps the terms (and their ids) alive
         dt = time.perf_counter() - t0
         self.stats.solver_s += dt
         self.stats.queries += 1
@@ -235,6 +248,8 @@ class Ctx:
 
     def remember(self, cond, val: bool) -> None:
         self.known[cond.get_id()] = val
+        if z3.is_not(cond):
+            self.known[cond.arg(0).get_id()] = not val
 
     def lookup(self, cond) -> Optional[bool]:
         return self.known.get(cond.get_id())
@@ -362,6 +377,12 @@ def assume(cond) -> None:
         return
     if z3.is_false(e):
         raise PathAbort("assume(False)")
+    if z3.is_and(e):
+        for ch in e.children():
+            assume(ch)
+        return
+    if c.lookup(e) is True:
+        return
     if c.pos >= len(c.prefix):
         # keep the invariant "the path condition is satisfiable" (sliced query);
         # while a recorded prefix is being replayed this was established before
